@@ -209,7 +209,7 @@ static Exec exec_op(Case &c, Ctx &x, const Op &o)
     case OP_SEQ:
     {
         Rng r2((uint64_t)o.a * 7919 + 13, 5, (uint64_t)o.b);
-        SongOpts so; so.max_tracks = 3; so.max_events = 30; so.tempo_changes = false; so.force_division = 96;
+        SongOpts so; so.max_tracks = 3; so.max_events = 30; so.tempo_changes = false; so.force_division = 96; so.devices = (o.b & 1) != 0;
         Song s = gen_song(r2, so);
         std::vector<uint8_t> f = serialize_song(s); ExactBuf in(f); int rc = 0;
         API("opn2_openData", rc = opn2_openData(d, in.p, (unsigned long)in.n));
